@@ -20,11 +20,11 @@ CHECKS = {
                 note="Trusted: normalisation laws, core models, rustc's MIR. Release builds have a subset of the dev build's panic sites.",
                 technique="value-graph normalisation of MIR plus constant folding of every Assert condition"),
     "C09": dict(level=TV, design="3/C09",
-                text="with_tweak + encrypt_block for symbolic key, tweak and block is evaluated to a value graph (all loop bounds are compile-time constants) and must be bit-for-bit identical to the graph of the Skein 1.3 definition written independently in spec/threefish.py (key schedule, 72/72/80 MIX rounds, rotation constants, word permutation, subkey injection, LE words); done for the unrolled build and for the no_unroll feature. Decides the property for all keys, tweaks and blocks.",
+                text="with_tweak + encrypt_block for symbolic key, tweak and block is evaluated to a value graph (all loop bounds are compile-time constants) and must be bit-for-bit identical to the graph of the Skein 1.3 definition written independently in spec/threefish.py (key schedule, 72/72/80 MIX rounds, rotation constants, word permutation, subkey injection, LE words); done for the unrolled build and for the no_unroll feature. Decides the property for all keys, tweaks and blocks. R10.2: encrypt_blocks / encrypt_par_blocks (and the decrypt twins) act on each block exactly as encrypt_block / decrypt_block, so the conformance carries over to every way the cipher traits run the cipher.",
                 note="Trusted: spec/threefish.py (validated against NIST vectors in setup), normalisation laws, models of core slice/iterator functions, rustc's MIR.",
                 technique="value-graph normalisation of MIR vs. an independently written reference (translation validation), two build configurations"),
     "C10": dict(level=TV, design="3/C10",
-                text="decrypt(encrypt(b)) and encrypt(decrypt(b)) with the entire subkey array and the block as free symbols must normalise to b, for 3 sizes, both orders, unrolled and no_unroll builds. The laws x+k-k=x, x^y^y=x, rotr(rotl(x,r),r)=x cancel round by round.",
+                text="decrypt(encrypt(b)) and encrypt(decrypt(b)) with the entire subkey array and the block as free symbols must normalise to b, for 3 sizes, both orders, unrolled and no_unroll builds. The laws x+k-k=x, x^y^y=x, rotr(rotl(x,r),r)=x cancel round by round. R10.2: decrypt_blocks / decrypt_par_blocks / encrypt_blocks / encrypt_par_blocks act block by block exactly as the single-block methods (a provided trait method that is overridden is analysed like any other code).",
                 note="Trusted: normalisation laws, core models. Subkeys are free symbols, so the result holds for every key and tweak.",
                 technique="value-graph normalisation: composition of the two MIR bodies reduces to the identity"),
     "C14": dict(level=TV, design="3/C14",
@@ -44,7 +44,7 @@ CHECKS = {
                 note="Trusted: rustc/cargo. Known findings (listed by lattice point): groestl-aesni without std, crypto-simd with packed_simd on stable. x86-64 host target only.",
                 technique="type checking of every point of the feature lattice (cargo check), exit status per point"),
     "C16": dict(level="other", design="3/C16",
-                text="Every monomorphic instance of workspace code reachable from the public API (4044 instances over the x86 and portable builds) is audited for unsafe memory operations: no alignment-requiring load/store intrinsic, no typed dereference / ptr::read / ptr::write through a pointer whose def chain starts at less aligned data, no pointer-to-integer conversion or address inspection, unions and transmutes of equal size without padding; the raw-pointer entry points (Groestl tf512/tf1024 x3 arms, JH f8 x5 machines) are evaluated by the pointer model on exact-size buffers where any out-of-buffer access is reported. Positive controls (fixtures/controls, short-buffer run) must fire on every run.",
+                text="Every monomorphic instance of workspace code reachable from the public API (4044 instances over the x86 and portable builds) is audited for unsafe memory operations: no alignment-requiring load/store intrinsic, no typed dereference / ptr::read / ptr::write through a pointer whose def chain starts at less aligned data, no pointer-to-integer conversion or address inspection, unions and transmutes of equal size without padding; the raw-pointer entry points (Groestl tf512/tf1024 x3 arms, JH f8 x5 machines) are evaluated by the pointer model on exact-size buffers where any out-of-buffer access is reported. Positive controls (fixtures/controls, short-buffer run) must fire on every run. The extent sweep also covers Threefish new / with_tweak / encrypt_block / decrypt_block on exact-size keys and blocks; raw copy_nonoverlapping is modelled with bounds.",
                 note="Decides the property relative to the memory safety of safe Rust, core, block-buffer, generic-array and zerocopy. Alignment is decided structurally (which intrinsics / dereferences exist), not by trying addresses.",
                 technique="MIR audit of unsafe operations with def-use chains + layout facts; abstract pointer model for extents"),
     "C18": dict(level="other", design="3/C18",
@@ -84,7 +84,7 @@ CHECKS = {
                 note="Sentence 1 of the property for ARBITRARY histories is not decided: that needs an inductive invariant over unbounded histories, which is outside this technique. The family is finite in operation sequences (quick ~520, thorough ~9000), complete in contents.",
                 technique="abstract interpretation of the real buffering code over symbolic contents for an enumerated family of operation sequences (positions/lengths are the case-split selectors)"),
     "C11": dict(level="other", design="3/C11",
-                text="Same engine on histories around the limits: requests crossing 2^38 bytes on the IETF cipher fail with the data graph, the reported position and later behaviour unchanged; requests and seeks ending exactly at the limit succeed; try_seek past the end is LoopError for every SeekNum type; the counter's carry never reaches nonce / stream-id words (state invariant after every step, all 7 aliases in thorough); 64-bit variants serve every u64 position and report OverflowError only for positions that do not fit the requested type.",
+                text="Same engine on histories around the limits: requests crossing 2^38 bytes on the IETF cipher fail with the data graph, the reported position and later behaviour unchanged; requests and seeks ending exactly at the limit succeed; try_seek past the end is LoopError for every SeekNum type; the counter's carry never reaches nonce / stream-id words (state invariant after every step, all 7 aliases in thorough); 64-bit variants serve every u64 position and report OverflowError only for positions that do not fit the requested type. The family includes short requests (1, 2, 30, 63 bytes) after unaligned seeks into the last two blocks.",
                 note="Finite family of histories (symbolic contents); 'exactly 2^38 bytes over arbitrary histories' is not decided. The four genuine defects this check found (panic in seek32, counter carry into the nonce, len underflow, unimplemented current_pos) are fixed in /repo.",
                 technique="abstract interpretation over an enumerated family of operation sequences + state invariant"),
 }
